@@ -134,10 +134,14 @@ where
   T: Send + Clone + 'static,
 {
   fn clone(&self) -> Self {
-    self.dispatcher.sender_count.fetch_add(1, Ordering::Relaxed);
+    // a clone of a closed handle is closed too: it must not revive a disconnected channel
+    let closed = self.closed.load(Ordering::Relaxed);
+    if !closed {
+      self.dispatcher.sender_count.fetch_add(1, Ordering::Relaxed);
+    }
     Self {
       dispatcher: self.dispatcher.clone(),
-      closed: AtomicBool::new(false),
+      closed: AtomicBool::new(closed),
     }
   }
 }
